@@ -85,3 +85,17 @@ func (r *Result) SwitchSignature() uint64 {
 	}
 	return h
 }
+
+// FocusSiteCount returns how many yield sites lie in files matching focus.
+func FocusSiteCount(focus []string) int {
+	n := 0
+	for _, f := range SiteFile {
+		for _, sub := range focus {
+			if strings.Contains(SiteFiles[f], sub) {
+				n++
+				break
+			}
+		}
+	}
+	return n
+}
